@@ -27,7 +27,7 @@ def gen_hist(rng, nops):
             v = T.gen_value(rng, t, pools[t])
             pools[t].append(v); pools[t] = pools[t][-8:]
             # mostly through the public add_*, sometimes as the reader stores entries (add_value: equal values kept apart)
-            toks.append("%s%s:%d:%s" % ("v" if rng.random() < 0.25 else "a", t, b, v))
+            toks.append("%s%s:%d:%s" % ("v" if rng.random() < 0.25 else ("r" if t == "md" and rng.random() < 0.4 else "a"), t, b, v))
         elif k < 0.48:
             if phase[b] == "build":
                 toks.append(rng.choice(["iq:%d:%d" % (b, rng.randrange(1, 9)), "im:%d:%d" % (b, rng.randrange(1, 9)), "ia:%d:%d" % (b, rng.randrange(0, 6))]))
